@@ -390,12 +390,12 @@ def gen_ann(rng: Any, depth: int, hashable: bool = False, top: bool = False, key
     comps: list[tuple[str, int]] = []
     if depth > 0:
         if not key:
-            comps += [("opt", 4)]
-        comps += [("set", 4), ("dc", 5)]
+            comps += [("opt", 6)]
+        comps += [("set", 9), ("dc", 8)]
         if not hashable:
-            comps += [("list", 5), ("map", 5)]
+            comps += [("list", 8), ("map", 9)]
             if top:
-                comps += [("dcbin", 3), ("optdcbin", 1)]
+                comps += [("dcbin", 4), ("optdcbin", 2)]
     pool = leaves + comps
     k = rng.choices([p[0] for p in pool], weights=[p[1] for p in pool])[0]
     if k in SCALARS or k in ("schema", "batch", "f32"):
